@@ -153,3 +153,16 @@ Definition b58_prefix_primary (fs : list filter) (attrs : list bytes) : bool :=
   end.
 Definition b58_prefix_cases (cs : list scase) : list nat :=
   mism_from (fun c => negb (b58_prefix_primary (s_filters c) (s_attrs c))) 0 cs.
+
+(* integer detection: which attribute values get an entry in the integer index and how
+   the shard prints them (one object per value, query "N >= min") *)
+Record icase := ICase { ic_val : bytes; ic_indexed : bool; ic_text : bytes }.
+Definition int_obs_ok (r : option sint) (c : icase) : bool :=
+  match r with
+  | Some z => ic_indexed c && bytes_eqb (ic_text c) (to_string z)
+  | None => negb (ic_indexed c)
+  end.
+Definition int_model_ok (c : icase) : bool := int_obs_ok (set_from_decimal (ic_val c)) c.
+Definition int_ref_ok (c : icase) : bool := int_obs_ok (spec_read (ic_val c)) c.
+Definition int_model_mismatches := mism_from int_model_ok 0.
+Definition int_ref_mismatches := mism_from int_ref_ok 0.
